@@ -488,6 +488,38 @@ def _rule_r6(text, log):
                '            __r6_any })') % (E, x, E, body)
         out = out[:mm.start()] + rep + out[close + 1:]
         n += 1
+    # (k) E.par_iter().find_map_any(|x| BODY).unwrap_or_else(|| ALT)   (rayon: Some(f(x)) for SOME x with f(x) = Some,
+    #     None if there is none) -> loop that stops at the first Some; contracts must not depend on which one
+    while True:
+        m = rs.mask(out)
+        mm = re.search(r'([a-z_][a-z0-9_]*)\s*\.par_iter\(\)\s*\.find_map_any\(', m)
+        if not mm:
+            break
+        op = mm.end() - 1
+        close = rs.match_brace(m, op)
+        inner = out[op + 1:close]
+        cm = re.match(r'\s*\|\s*([a-z_][a-z0-9_]*)\s*\|\s*', inner)
+        tm = re.match(r'\s*\.unwrap_or_else\(', m[close + 1:])
+        if not cm or not tm:
+            raise Unsupported('R6k: find_map_any(..).unwrap_or_else(..) shape not recognised')
+        x, body = cm.group(1), inner[cm.end():].strip()
+        op2 = close + 1 + tm.end() - 1
+        close2 = rs.match_brace(m, op2)
+        alt = out[op2 + 1:close2]
+        am = re.match(r'\s*\|\|\s*', alt)
+        if not am:
+            raise Unsupported('R6k: unwrap_or_else closure not recognised')
+        alt = alt[am.end():].strip()
+        E = mm.group(1)
+        rep = ('({ let mut __r6_found = None; let mut __r6_i: usize = 0;\n'
+               '            while __r6_i < %s.len() && __r6_found.is_none() {\n'
+               '                let %s = &%s[__r6_i];\n'
+               '                __r6_found = %s;\n'
+               '                __r6_i += 1;\n'
+               '            }\n'
+               '            match __r6_found { Some(__r6_v) => __r6_v, None => %s } })') % (E, x, E, body, alt)
+        out = out[:mm.start()] + rep + out[close2 + 1:]
+        n += 1
     # (j) E.retain(|x| BODY);  -> rebuild E from the elements for which BODY holds, in order (T: Copy)
     while True:
         m = rs.mask(out)
